@@ -80,7 +80,7 @@ func lexerEOFRuleSSA(r *Run, rule string) {
 			continue
 		}
 		pw := &pathWalker{loadHook: nulHook, seed: nulSeed, inline: func(caller, callee *ssa.Function) bool {
-			return callee.Pkg == fn.Pkg && callee != lm.readChar && callee != lm.peekChar && !lm.hasLoop[callee] && !funcHasLoop(callee) && callee != lm.inside && callee != lm.outer
+			return pkgOf(callee) == fn.Pkg && callee != lm.readChar && callee != lm.peekChar && !lm.hasLoop[callee] && !funcHasLoop(callee) && callee != lm.inside && callee != lm.outer
 		}}
 		pw.walk(fn)
 		bad := false
@@ -145,7 +145,7 @@ func (lm *lexSSAModel) readCharSummary() *readCharSum {
 		return s
 	}
 	recv := ssa.Value(fn.Params[0])
-	paths, ok := walkPaths(fn, nil, func(caller, callee *ssa.Function) bool { return callee.Pkg == fn.Pkg && !funcHasLoop(callee) })
+	paths, ok := walkPaths(fn, nil, func(caller, callee *ssa.Function) bool { return pkgOf(callee) == fn.Pkg && !funcHasLoop(callee) })
 	if !ok || len(paths) == 0 {
 		s.why = "paths of readChar cannot be enumerated"
 		return s
@@ -647,7 +647,7 @@ func commentRuleSSA(r *Run, rule string) {
 			if base(caller, callee) {
 				return true
 			}
-			return callee.Pkg == lm.inside.Pkg && callee != lm.skipper && callee != lm.readChar && callee != lm.peekChar && callee != lm.inside && callee != lm.outer &&
+			return pkgOf(callee) == lm.inside.Pkg && callee != lm.skipper && callee != lm.readChar && callee != lm.peekChar && callee != lm.inside && callee != lm.outer &&
 				lm.hasLoop[callee] && callee.Signature.Results().Len() == 0 && callee.Signature.Params().Len() == 0
 		}
 		pw := &pathWalker{loadHook: hook, inline: inline, unroll1: true, maxPaths: 5000, stopCall: lm.redispatchStop(lm.inside)}
@@ -769,7 +769,7 @@ func textScannerRuleSSA(r *Run, rule string) {
 		return
 	}
 	pw := &pathWalker{unroll1: true, maxPaths: 20000, inline: func(caller, callee *ssa.Function) bool {
-		return callee.Pkg == scan.Pkg && callee != lm.readChar && callee != lm.peekChar && !funcHasLoop(callee)
+		return pkgOf(callee) == scan.Pkg && callee != lm.readChar && callee != lm.peekChar && !funcHasLoop(callee)
 	}}
 	pw.walk(scan)
 	if pw.overflow || len(pw.paths) == 0 {
@@ -927,7 +927,7 @@ func stringScannerRuleSSA(r *Run, rule string) {
 			return nil, false
 		}
 		pw := &pathWalker{unroll1: true, maxPaths: 20000, seed: seed, inline: func(caller, callee *ssa.Function) bool {
-			return callee.Pkg == scan.Pkg && callee != lm.readChar && callee != lm.peekChar
+			return pkgOf(callee) == scan.Pkg && callee != lm.readChar && callee != lm.peekChar
 		}}
 		pw.walk(scan)
 		name := ssaName(scan)
